@@ -433,7 +433,8 @@ def main(argv):
         subprocess.run([os.path.join(VERIF, "setup.sh")], check=False)
     results = []
     with cf.ThreadPoolExecutor(max_workers=8) as ex:
-        for r in ex.map(lambda n: verify_slice(n, tier), cfg["slices"]):
+        slice_names = cfg.get("thorough_slices", cfg["slices"]) if tier == "thorough" else cfg["slices"]
+        for r in ex.map(lambda n: verify_slice(n, tier), slice_names):
             results.append(r)
     extra = []
     if tier == "thorough":
